@@ -76,4 +76,65 @@ def directRun (res : Nat → Nat → Res) (t : Tree) : List Nat → World → Wo
     let (w2, rs) := directRun res t es w1
     (w2, r :: rs)
 
+/-! ## A formatter-backed stream over a buffering writer (`format.rs::FormattedEntryIoStream`)
+
+`next` formats the entry into the writer (`write` calls: the writer buffers them), `flush` is
+`self.output.flush()` — always, whatever happened before. The writer's `flush` either delivers the
+whole buffer or fails and keeps it (what `BufWriter` does). -/
+namespace FmtBuf
+
+structure W where
+  /-- accepted by `write`, not yet delivered -/
+  buf : List Nat
+  /-- delivered by successful flushes, in order -/
+  delivered : List Nat
+  /-- `flush` calls the writer has seen -/
+  flushCalls : Nat
+  deriving Repr, DecidableEq
+
+inductive Op where
+  /-- `stream.next(entry)`; the entry's record is `bytes` -/
+  | next (bytes : List Nat)
+  /-- `stream.flush()`; `ok` is what the writer's `flush` answers this time -/
+  | flush (ok : Bool)
+  deriving Repr, DecidableEq
+
+/-- one stream call; the `Bool` is the call's result (`true` = `Ok`) -/
+def step (w : W) : Op → W × Bool
+  | .next bs => ({ w with buf := w.buf ++ bs }, true)
+  | .flush true => (⟨[], w.delivered ++ w.buf, w.flushCalls + 1⟩, true)
+  | .flush false => ({ w with flushCalls := w.flushCalls + 1 }, false)
+
+def run : W → List Op → W × List Bool
+  | w, [] => (w, [])
+  | w, op :: ops =>
+    let (w1, r) := step w op
+    let (w2, rs) := run w1 ops
+    (w2, r :: rs)
+
+def init : W := ⟨[], [], 0⟩
+
+/-- everything `next` was given, in order -/
+def written : List Op → List Nat
+  | [] => []
+  | .next bs :: ops => bs ++ written ops
+  | .flush _ :: ops => written ops
+
+/-- `FlushImmediately::append` over such a stream: `next`, then always `flush` -/
+def immOps : List (List Nat × Bool) → List Op
+  | [] => []
+  | (bs, ok) :: es => .next bs :: .flush ok :: immOps es
+
+/-- A variant that is NOT the code: skip the writer's flush unless something was written since the
+last flush attempt (the flag is cleared before the flush result is known). Used for a witness. -/
+def stepDirty (s : W × Bool) : Op → (W × Bool) × Bool
+  | .next bs => (({ s.1 with buf := s.1.buf ++ bs }, true), true)
+  | .flush ok =>
+    if s.2 then
+      let (w, r) := step s.1 (.flush ok)
+      ((w, false), r)
+    else (s, true)
+
+end FmtBuf
+
 end Sinks
